@@ -451,6 +451,13 @@ impl Conv {
     fn better(&self, other: &Conv) -> bool {
         self.not_worse(other) && (self.level < other.level || self.shape < other.shape)
     }
+    /// The compiler's own order of conversions: the numeric rank decides, the shape only between conversions of equal rank
+    fn lex_not_worse(&self, other: &Conv) -> bool {
+        self.level < other.level || (self.level == other.level && self.shape <= other.shape)
+    }
+    fn lex_better(&self, other: &Conv) -> bool {
+        self.level < other.level || (self.level == other.level && self.shape < other.shape)
+    }
 }
 
 fn numeric_level(src: Src, dst: Sc) -> u8 {
@@ -879,6 +886,28 @@ fn examine(case: &Case, perms: &[Vec<usize>], second_observation: bool, report: 
             report.count("monitor:domination-pairs-compared");
             let no_worse = cj.iter().zip(ck).all(|(a, b)| a.not_worse(b));
             let better_at = cj.iter().zip(ck).position(|(a, b)| a.better(b));
+            // the same claim under the order in which a numerically better conversion is better whatever its shape (int -> int2 over
+            // int -> float): reported only where the component-wise comparison above is silent
+            if !(no_worse && better_at.is_some()) && cj.iter().zip(ck).all(|(a, b)| a.lex_not_worse(b)) {
+                if let Some(at) = cj.iter().zip(ck).position(|(a, b)| a.lex_better(b) && a.level < b.level) {
+                    let conv_json = |c: &Vec<Conv>| Json::Arr(c.iter().map(|x| Json::str(x.text())).collect());
+                    report.violation(
+                        &format!("selected-dominated:numeric-before-shape:{}-over-{}", ck[at].level_name(), cj[at].level_name()),
+                        &format!(
+                            "call f({}) selects {} although {} converts no argument with a worse numeric rank (shape compared only at equal rank) and argument {} with a better one ({} instead of {}) (declaration order {})",
+                            case.args_text(),
+                            case.sig_text(k),
+                            case.sig_text(j),
+                            at + 1,
+                            cj[at].text(),
+                            ck[at].text(),
+                            perm_text(&perms[i])
+                        ),
+                        witness(Json::obj().set("selected_conversions", conv_json(ck)).set("dominating", case.sig_text(j)).set("dominating_conversions", conv_json(cj))),
+                    );
+                    report.count("monitor-fired:domination-numeric-before-shape");
+                }
+            }
             if no_worse {
                 if let Some(at) = better_at {
                     // class of the failure: the rank component in which the selected candidate loses
